@@ -46,11 +46,8 @@ fn check_rev<C: Cm>(case: &Case) -> PResult {
     let mut m1 = owned.clone();
     no_panic(&format!("rev_panic/{n}"), "Seq::rev", || m1.rev())?;
     check_content(&sy, &m1, &exp, &format!("seq_rev/{n}"))?;
-    check_image(&m1, &exp, &format!("seq_rev/{n}"))?;
-    check_image(&r, &exp, &format!("slice_to_rev/{n}"))?;
     m1.rev();
     check_symbols(&sy, &m1, codes, &format!("rev_involution/{n}"))?;
-    check_same_hash(&r, &m1.to_rev(), &format!("rev_hash/{n}"), "to_rev of slice vs of owned")?;
     // if the representation is itself owned, use it directly too
     if let Some(o) = built.owned() {
         let r3 = o.to_rev();
@@ -80,11 +77,9 @@ fn check_comp<C: Cm + ComplementMut>(case: &Case) -> PResult {
 
     let c = no_panic(&format!("to_comp_panic/{n}"), "SeqSlice::to_comp", || sl.to_comp())?;
     check_content(&sy, &c, &exp_c, &format!("slice_to_comp/{n}"))?;
-    check_image(&c, &exp_c, &format!("slice_to_comp/{n}"))?;
     unchanged(&sy, &built, &case.s, &format!("to_comp/{n}"))?;
     let rc = no_panic(&format!("to_revcomp_panic/{n}"), "SeqSlice::to_revcomp", || sl.to_revcomp())?;
     check_content(&sy, &rc, &exp_rc, &format!("slice_to_revcomp/{n}"))?;
-    check_image(&rc, &exp_rc, &format!("slice_to_revcomp/{n}"))?;
     unchanged(&sy, &built, &case.s, &format!("to_revcomp/{n}"))?;
 
     // either order of composition
@@ -106,10 +101,8 @@ fn check_comp<C: Cm + ComplementMut>(case: &Case) -> PResult {
     let mut m2 = owned.clone();
     no_panic(&format!("revcomp_panic/{n}"), "Seq::revcomp", || m2.revcomp())?;
     check_content(&sy, &m2, &exp_rc, &format!("seq_revcomp/{n}"))?;
-    check_image(&m2, &exp_rc, &format!("seq_revcomp/{n}"))?;
     m2.revcomp();
     check_symbols(&sy, &m2, codes, &format!("revcomp_involution/{n}"))?;
-    check_same_hash(&rc, &owned.to_revcomp(), &format!("revcomp_hash/{n}"), "to_revcomp of slice vs of owned")?;
 
     let len = codes.len();
     let off = case.s.bit_offset(bits);
